@@ -76,7 +76,9 @@ def _decode(b: bytes):
             actions.append({"kind": "abs", "scheme": r.pick(["http", "https", "http"]), "req": req(n)})
             n += 1
         if r.byte() % 4 or not actions:
-            inner = r.pick(["plain", "tls", "plain", "tls"])
+            # plain HTTP inside a client tunnel in upstream mode is the recorded finding C24-...-plain-tunnel:
+            # keep it at ~1/6 there so that most of the budget searches behind it
+            inner = r.pick(["plain", "tls", "tls", "tls", "tls", "tls"] if mode.startswith("upstream") else ["plain", "tls"])
             reqs = []
             for _ in range(1 + r.byte() % 2):
                 reqs.append(req(n))
